@@ -384,6 +384,13 @@ int main(int argc, char **argv)
     for (int i = 2; i < argc && ac < 15; i++) av[ac++] = argv[i];
     av[ac] = NULL;
     int rc = pm_main(ac, av);
+#if defined(__SANITIZE_ADDRESS__)
+    {   /* heap objects that nothing points to any more after cli_fini / dev_fini / conf_fini (LeakSanitizer, testing only) */
+        extern int __lsan_do_recoverable_leak_check(void);
+        fflush(stderr);
+        fprintf(out, "HEAPLEAK %d\n", __lsan_do_recoverable_leak_check() ? 1 : 0);
+    }
+#endif
     fprintf(out, "RETURN %d kids=%d\n", rc, nkids_live);
     for (int i = 0; i < NV; i++) if (V[i].k != K_FREE && V[i].k != K_PIPEH) fprintf(out, "LEAK %s\n", kname(&V[i]));
     fflush(out);
